@@ -54,6 +54,9 @@ def deco(tag):
     return d
 class NS:
     pass
+def make_app():
+    import celery
+    return celery.Celery()
 '''
     exec(src, m.__dict__)
     sys.modules[TRACE_MOD] = m
@@ -61,6 +64,39 @@ class NS:
 
 
 TR = install_tracer()
+
+# stand-ins for the third-party packages of beartype's default decorator-position beforelist (the decorators are
+# transparent: where @beartype lands relative to them is what is compared)
+HOSTILE_PKGS = {
+    'celery/__init__.py': ("from vc05trace import LOG\n"
+                           "class Celery:\n"
+                           "    def task(self, *a, **k):\n"
+                           "        LOG.append('hostile:task')\n"
+                           "        if len(a) == 1 and callable(a[0]) and not k:\n            return a[0]\n"
+                           "        return lambda f: f\n"),
+    'fastmcp/__init__.py': ("from vc05trace import LOG\n"
+                            "class FastMCP:\n"
+                            "    def tool(self, *a, **k):\n"
+                            "        LOG.append('hostile:tool')\n"
+                            "        if len(a) == 1 and callable(a[0]) and not k:\n            return a[0]\n"
+                            "        return lambda f: f\n"),
+    'langchain_core/__init__.py': "",
+    'langchain_core/runnables.py': ("from vc05trace import LOG\n"
+                                    "def chain(f):\n    LOG.append('hostile:chain')\n    return f\n"),
+}
+# (preamble lines, decorator source, is it on the beforelist as beartype tracks names?)
+HOSTILE_FORMS = [
+    (['from celery import Celery', 'app = Celery()'], 'app.task', True),
+    (['from celery import Celery as CC', 'app2 = CC()'], 'app2.task', True),
+    (['import celery', 'app3 = celery.Celery()'], 'app3.task', True),
+    (['from celery import Celery', 'from vc05trace import make_app', 'app4: Celery = make_app()'], 'app4.task', True),
+    (['from celery import Celery', 'from vc05trace import make_app', 'app5: Celery', 'app5 = make_app()'], 'app5.task', True),
+    (['from fastmcp import FastMCP', 'mcp = FastMCP()'], 'mcp.tool', True),
+    (['from langchain_core.runnables import chain'], 'chain', True),
+    (['from langchain_core import runnables'], 'runnables.chain', True),
+    (['import langchain_core.runnables'], 'langchain_core.runnables.chain', True),
+    (['from vc05trace import make_app', 'app6 = make_app()'], 'app6.task', False),
+]
 
 
 # ---------------------------------------------------------------------------------------
@@ -73,6 +109,7 @@ class Gen:
         self.planted_line = None
         self.funcs = []             # (name, nparams) callable at module level
         self.features = set()
+        self.hostile = []           # (decorator source, tracked by the beforelist?) usable at module level
 
     def tag(self, p='t'):
         self.n += 1
@@ -117,8 +154,18 @@ class Gen:
         annotated = self.rng.random() < .8
         is_async = self.rng.random() < .15 and not in_class
         ndec = self.rng.choice((0, 0, 0, 1, 2))
-        for _ in range(ndec):
-            self.emit(ind, f"@deco({self.tag('d')!r})")
+        decs = [f"@deco({self.tag('d')!r})" for _ in range(ndec)]
+        if self.hostile and ind == 0 and depth == 0 and not in_class and self.rng.random() < .6:
+            # one or two third-party decorators of the beforelist: on top (their documented place), or below a
+            # user decorator
+            for _ in range(self.rng.choice((1, 1, 2))):
+                hsrc, tracked = self.rng.choice(self.hostile)
+                hdec = '@' + hsrc + self.rng.choice(('', '', "(name='n')" if not hsrc.endswith('chain') else ''))
+                decs.insert(0 if self.rng.random() < .75 else self.rng.randint(0, len(decs)), hdec)
+            self.features.add('decorator-hostile')
+        for d_ in decs:
+            self.emit(ind, d_)
+        if ndec:
             self.features.add('decorator-stack')
         params = []
         if in_class and kind in (None, 'property'):
@@ -231,6 +278,12 @@ class Gen:
             self.features.add('future-annotations')
         self.emit(0, 'import contextlib')
         self.emit(0, f'from {TRACE_MOD} import T, deco, NS')
+        if self.rng.random() < .4:
+            for pre, hsrc, tracked in self.rng.sample(HOSTILE_FORMS, self.rng.choice((1, 1, 2))):
+                for l_ in pre:
+                    if l_ not in self.lines:
+                        self.emit(0, l_)
+                self.hostile.append((hsrc, tracked))
         self.body(0, 0, n=self.rng.choice((3, 5, 8)))
         if self.plant == 'ann':
             typ = self.typ()
@@ -260,9 +313,18 @@ def is_typed(fn):
     return fn.returns is not None or any(x.annotation is not None for x in allargs)
 
 
-def place(decorators, marker, where):
+def place(decorators, marker, where, hostile=()):
     if where == 'FIRST':
         decorators.append(marker)       # applied first = written last
+    elif where == 'LBDH':
+        # last, but below the leading run of decorator-hostile decorators (those tolerate nothing above them)
+        k = 0
+        while k < len(decorators):
+            d = decorators[k]
+            if ast.unparse(d.func if isinstance(d, ast.Call) else d) not in hostile:
+                break
+            k += 1
+        decorators.insert(k, marker)
     else:
         decorators.insert(0, marker)    # applied last = written first
 
@@ -270,8 +332,9 @@ def place(decorators, marker, where):
 class ByHand(ast.NodeTransformer):
     """Adds the decorators / calls the rule names.  `in_class` = directly in a class body."""
 
-    def __init__(self, pep526, place_func, place_type):
+    def __init__(self, pep526, place_func, place_type, hostile=()):
         self.pep526, self.place_func, self.place_type = pep526, place_func, place_type
+        self.hostile = set(hostile)
         self.stack = ['module']
         self.added = dict(decorators=0, calls=0)
 
@@ -305,7 +368,7 @@ class ByHand(ast.NodeTransformer):
 
     def _func(self, node):
         if self.stack[-1] != 'class' and is_typed(node):
-            place(node.decorator_list, self.marker(node), self.place_func)
+            place(node.decorator_list, self.marker(node), self.place_func, self.hostile)
             self.added['decorators'] += 1
         self.stack.append('func')
         node.body = self.visit_block(node.body)
@@ -316,7 +379,7 @@ class ByHand(ast.NodeTransformer):
     visit_AsyncFunctionDef = _func
 
     def visit_ClassDef(self, node):
-        place(node.decorator_list, self.marker(node), self.place_type)
+        place(node.decorator_list, self.marker(node), self.place_type, self.hostile)
         self.added['decorators'] += 1
         self.stack.append('class')
         node.body = self.visit_block(node.body)
@@ -327,9 +390,9 @@ class ByHand(ast.NodeTransformer):
         return node
 
 
-def by_hand_tree(src, pep526, place_func, place_type):
+def by_hand_tree(src, pep526, place_func, place_type, hostile=()):
     tree = ast.parse(src)
-    bh = ByHand(pep526, place_func, place_type)
+    bh = ByHand(pep526, place_func, place_type, hostile)
     tree.body = bh.visit_block(tree.body)
     # one import after docstring and __future__ imports
     i = 0
@@ -431,7 +494,7 @@ CONFS = [
 
 
 def place_name(p):
-    return 'FIRST' if p is BeartypeDecorPlace.FIRST else 'LAST'
+    return 'FIRST' if p is BeartypeDecorPlace.FIRST else 'LBDH' if p is BeartypeDecorPlace.LAST_BEFORE_DECOR_HOSTILE else 'LAST'
 
 
 def run_import(modname):
@@ -453,12 +516,16 @@ def run_import(modname):
 def main():
     W = Worker('C05', RULE, assumptions=[
         'annotation expressions are pure names (the hook necessarily evaluates the hint expression again in the added call)',
-        'no decorator-hostile third-party decorators are generated (LAST_BEFORE_DECOR_HOSTILE then equals LAST)',
+        'the third-party decorators of the default beforelist (celery.Celery.task, fastmcp.FastMCP.tool, langchain_core.runnables.chain) are transparent stand-ins; the by-hand rule knows which decorator expressions the generator bound to them',
         'the compiled AST is the object handed to compile(), captured by a sys.audit hook'])
     quick = W.quick
     limit = 100000 if quick else 5000000
     root = tempfile.mkdtemp(prefix='vc05_')
     sys.path.insert(0, root)
+    for rel, text in HOSTILE_PKGS.items():
+        os.makedirs(os.path.dirname(os.path.join(root, rel)), exist_ok=True)
+        with open(os.path.join(root, rel), 'w') as f_:
+            f_.write(text)
     try:
         serial = [0]
 
@@ -473,10 +540,10 @@ def main():
             importlib.invalidate_caches()
             return pkg, path
 
-        def one_case(stream, idx, src, confname, confkw, planted, plant_line, features):
+        def one_case(stream, idx, src, confname, confkw, planted, plant_line, features, hostile=()):
             conf = BeartypeConf(**confkw)
             pep526 = confkw.get('claw_is_pep526', True)
-            pf = place_name(confkw.get('claw_decor_place_func', BeartypeDecorPlace.LAST))
+            pf = place_name(confkw.get('claw_decor_place_func', BeartypeDecorPlace.LAST_BEFORE_DECOR_HOSTILE))
             pt = place_name(confkw.get('claw_decor_place_type', BeartypeDecorPlace.LAST))
             wit = dict(conf=confname, planted=planted, planted_line=plant_line, source=src[:3000])
             # ---- unhooked --------------------------------------------------------------------
@@ -502,7 +569,7 @@ def main():
             # ---- structure -----------------------------------------------------------------------
             import copy
             norm, problems = normalise_hooked(copy.deepcopy(hooked_tree))
-            hand_tree, added = by_hand_tree(src, pep526, pf, pt)
+            hand_tree, added = by_hand_tree(src, pep526, pf, pt, hostile)
             W.count('injected_decorators_expected', added['decorators'])
             W.count('injected_calls_expected', added['calls'])
             if problems:
@@ -666,16 +733,22 @@ def main():
             W.evaluate((src, confname) if nontrivial else None)
             for f in g.features:
                 W.add('features', f)
+            if 'decorator-hostile' in g.features:
+                W.count('modules_with_decorator_hostile_decorators')
+                for h_, tracked_ in g.hostile:
+                    W.add('hostile_decorator_forms', f'{h_} ({"beforelisted" if tracked_ else "untracked control"})')
             W.add('confs', confname)
             if len(W.samples) < 2 and nontrivial and len(src) < 1500:
                 W.sample(dict(conf=confname, planted=planted, source=src))
             try:
-                one_case('mod', idx, src, confname, confkw, planted, g.planted_line, g.features)
+                one_case('mod', idx, src, confname, confkw, planted, g.planted_line, g.features,
+                         hostile=[h for h, tracked in g.hostile if tracked])
             except Exception:
                 W.violation('harness-error', traceback.format_exc()[-1200:], 'mod', idx, dict(source=src[:2000], conf=confname))
     finally:
         shutil.rmtree(root, ignore_errors=True)
 
+    W.need('modules_with_decorator_hostile_decorators', 30)
     W.need('hooked_imports', 200)
     W.need('asts_captured', 200)
     W.need('placements_agree', 150)
